@@ -197,6 +197,9 @@ SITES = [
     S("flexSizeTerm", "containers/src/flex.rs", r"Some\(_\) => (iter\.pos \+ Self::OFFSET_SIZE),", [(r"iter\.pos", "pos"), (r"Self::OFFSET_SIZE", "os")], ["pos", "os"]),
     S("flexPushSeal", "containers/src/flex.rs", r"let payload_size = (ceil_mul\(T::from_bytes\(payload\)\?\.size\(\), Self::ALIGN\));", [(r"T::from_bytes\(payload\)\?\.size\(\)", "isz"), (r"Self::ALIGN", "align")], ["isz", "align"]),
     S("flexFillItem", "containers/src/flex.rs", r"let payload_size = (ceil_mul\(item\.size\(\), FlexVec::<T, L>::ALIGN\));", [(r"item\.size\(\)", "isz"), (r"FlexVec::<T, L>::ALIGN", "align")], ["isz", "align"]),
+    # `push`: the item is emplaced first (its error shifted by this much), then the new slot is marked, then the previous item is sealed —
+    # the site is found only while the three statements stand in that order
+    S("flexPushItemErrPos", "containers/src/flex.rs", r"let \(offset_slot, payload\) = data\.split_at_mut\(offset_size\);\s*(?://[^\n]*\n\s*)*let item = emplacer\.emplace\(payload\)\.map_err\(\|e\| e\.offset\((.*?)\)\)\?;\s*L::max_value\(\)\.emplace\(offset_slot\)\?;\s*if let Some\(\(last_offset_slot, sealed\)\) = last_slot \{\s*sealed\.emplace\(last_offset_slot\)\?;\s*\}\s*Ok\(item\)", [(r"offset_size", "os")], ["pos", "os"]),
     S("flexValidateFloor", "containers/src/flex.rs", r"let bytes = unsafe \{ bytes\.get_unchecked\(\.\.(floor_mul\(bytes\.len\(\), Self::ALIGN\))\) \};", [(r"bytes\.len\(\)", "n"), (r"Self::ALIGN", "align")], ["n", "align"]),
     # macros/src/items/base.rs
     S("structMinSize", "macros/src/items/base.rs", r"Data::Struct\(struct_data\) => \{\s*let contents = min_size_collect_fields\(&struct_data\.fields\);\s*quote! \{(.*?)\}\s*\}", [(r"#contents", "contents"), (r"<Self as FlatBase>::ALIGN", "align")], ["contents", "align"]),
@@ -255,6 +258,8 @@ GUARDS = [
       [(r"L::max_value\(\)", "lmax"), (r"\bo\b", "off")], ["off", "lmax", "pos"]),
     G("gEnumVariantRoom", "macros/src/items/cast.rs", r"if (data\.len\(\) [<>=!]+ Self::DATA_MIN_SIZES\[\*tag as usize\]) \{" + ERR,
       [(r"data\.len\(\)", "n"), (r"Self::DATA_MIN_SIZES\[\*tag as usize\]", "varmin"), (r"Self::DATA_OFFSET", "doff")], ["n", "varmin", "doff"]),
+    G("gFlexPushRoom", "containers/src/flex.rs", r"\(_, data\) = data\.split_at_mut\(offset\);\s*\}\s*if (data\.len\(\) [<>=!]+ offset_size) \{" + ERR,
+      [(r"data\.len\(\)", "n"), (r"offset_size", "os")], ["n", "os", "pos"]),
     G("gFlexPushSeal", "containers/src/flex.rs", r"let sealed = L::from_usize\(last_offset\)\s*\.and_then\(\|o\| if (o [<>=!]+ L::max_value\(\)) \{ Some\(o\) \} else \{ None \}\)\s*\.ok_or\(Error \{\s*kind: ErrorKind::(\w+),\s*pos(?:: (.*?))?,\s*\}",
       [(r"L::max_value\(\)", "lmax"), (r"\bo\b", "off")], ["off", "lmax", "pos"]),
 ]
